@@ -15,7 +15,8 @@
 //!            acknowledges the close frame)
 //!   hint s<N>: a response is expected in this step, afterwards wait (bounded) until N slots are free;
 //!        a<N>: wait (bounded) until N slots are free (a response ends the wait as well)
-//! Output line: one `<status|-|T>:<avail|?>:<handlers>` per step (same format as modelrun/connguard_driver.ml).
+//! Output line: one `<status|-|T>:<avail|?>:<handlers>` per step (same format as modelrun/connguard_driver.ml), then `X<n>`:
+//! the number of steps after which more HTTP handlers were still alive (started, future not dropped) than slots in use.
 //! `T` = a bounded wait of that step expired.  The guard handle is the clone the server puts into the request
 //! extensions (public API); it is captured by a warm-up call, so with max = 0 it is never seen (`?`).
 use jrv::*;
@@ -39,6 +40,7 @@ struct Shared {
 	started: Mutex<HashMap<u64, u64>>,
 	finished: Mutex<HashMap<u64, u64>>,
 	total: AtomicU64,
+	alive_http: std::sync::atomic::AtomicI64,
 	gates: Mutex<HashMap<u64, watch::Sender<bool>>>,
 	guard: Mutex<Option<ConnectionGuard>>,
 	calls: AtomicU64,
@@ -102,23 +104,39 @@ where
 
 fn module(shared: Arc<Shared>) -> RpcModule<Arc<Shared>> {
 	let mut m = RpcModule::new(shared);
-	m.register_async_method("park", |params, ctx, ext| async move {
-		let id: u64 = params.one().unwrap_or(u64::MAX);
-		if let Some(g) = ext.get::<ConnectionGuard>() {
-			let mut slot = ctx.guard.lock().unwrap();
-			if slot.is_none() {
-				*slot = Some(g.clone());
+	// `park` is called over WebSocket, `parkh` (same behaviour) over HTTP: an HTTP handler that is alive -- started and its
+	// future not yet dropped -- is counted in `alive_http`; each one must be covered by a connection slot of its own
+	for (name, http) in [("park", false), ("parkh", true)] {
+		m.register_async_method(name, move |params, ctx, ext| async move {
+			struct Alive(Arc<Shared>, bool);
+			impl Drop for Alive {
+				fn drop(&mut self) {
+					if self.1 {
+						self.0.alive_http.fetch_sub(1, SeqCst);
+					}
+				}
 			}
-		}
-		let mut rx = ctx.gate(id);
-		// total first: the harness waits on `started` and then reads `total`
-		ctx.total.fetch_add(1, SeqCst);
-		*ctx.started.lock().unwrap().entry(id).or_insert(0) += 1;
-		let _ = rx.wait_for(|v| *v).await;
-		*ctx.finished.lock().unwrap().entry(id).or_insert(0) += 1;
-		id
-	})
-	.unwrap();
+			let id: u64 = params.one().unwrap_or(u64::MAX);
+			if let Some(g) = ext.get::<ConnectionGuard>() {
+				let mut slot = ctx.guard.lock().unwrap();
+				if slot.is_none() {
+					*slot = Some(g.clone());
+				}
+			}
+			let mut rx = ctx.gate(id);
+			if http {
+				ctx.alive_http.fetch_add(1, SeqCst);
+			}
+			let _alive = Alive((*ctx).clone(), http);
+			// total first: the harness waits on `started` and then reads `total`
+			ctx.total.fetch_add(1, SeqCst);
+			*ctx.started.lock().unwrap().entry(id).or_insert(0) += 1;
+			let _ = rx.wait_for(|v| *v).await;
+			*ctx.finished.lock().unwrap().entry(id).or_insert(0) += 1;
+			id
+		})
+		.unwrap();
+	}
 	m.register_method("grab", |_, ctx, ext| {
 		if let Some(g) = ext.get::<ConnectionGuard>() {
 			*ctx.guard.lock().unwrap() = Some(g.clone());
@@ -427,7 +445,7 @@ impl Case {
 		match op {
 			"ho" => {
 				let Some(mut s) = self.connect().await else { return timeout };
-				let req = post("park", i);
+				let req = post("parkh", i);
 				let calls0 = sh.calls.load(SeqCst);
 				if s.write_all(&req[..req.len() - 1]).await.is_err() {
 					return timeout;
@@ -514,7 +532,7 @@ impl Case {
 					streams.push((s, Vec::new(), None::<u16>));
 				}
 				for (j, (s, _, _)) in streams.iter_mut().enumerate() {
-					let req = post("park", i + j as u64);
+					let req = post("parkh", i + j as u64);
 					if s.write_all(&req[..req.len() - 1]).await.is_err() {
 						return "EOF".into();
 					}
@@ -766,6 +784,7 @@ async fn run_case(line: &str) -> String {
 	}
 	// the warm-up call is not one of the script's handler invocations
 	let base_total = shared.total.load(SeqCst);
+	let mut uncovered = 0u32;
 	for tok in it {
 		let mut p = tok.split('.');
 		let op = p.next().unwrap_or("");
@@ -790,7 +809,19 @@ async fn run_case(line: &str) -> String {
 			None => "?".into(),
 		};
 		out.push(format!("{}:{}:{}", status, avail, shared.total.load(SeqCst) - base_total));
+		// every alive HTTP handler holds a slot of its own (WebSocket sessions only add to the slots in use): after a bounded
+		// wait (the drop of an aborted request's future is asynchronous) the number of alive HTTP handlers must not exceed
+		// the number of slots in use
+		if let Some(a) = shared.avail() {
+			let sh = shared.clone();
+			let used = (max as i64) - (a as i64);
+			if !poll_until(|| sh.alive_http.load(SeqCst) <= used, case.wait).await {
+				uncovered += 1;
+				case.wait = WAIT_DEGRADED;
+			}
+		}
 	}
+	out.push(format!("X{}", uncovered));
 	// tear down: let every parked handler go, drop every stream, stop the server
 	shared.open_all();
 	case.conns.clear();
